@@ -3,6 +3,7 @@
 package main
 
 import (
+	"sync/atomic"
 	"errors"
 	"fmt"
 	"sort"
@@ -36,6 +37,7 @@ type chain struct {
 	// answers of the unpruned twin never change once the chain is generated: cache them
 	cacheMu   sync.Mutex
 	twinState map[string]twinStateRes
+	twinLUs   map[string]luRes
 	twinQ     map[string]twinQRes
 }
 
@@ -201,6 +203,9 @@ func (c *chain) next(plain bool) (*lib.Bundle, error) {
 		diff.StorageDiffs[markerAddr] = map[felt.Felt]*felt.Felt{}
 	}
 	diff.StorageDiffs[markerAddr][markerSlot] = markerValue(num)
+	if num == onceBlock {
+		diff.StorageDiffs[markerAddr][onceSlot] = lib.F(77) // written by this block only (lastupd.go)
+	}
 	for a, kv := range diff.StorageDiffs {
 		for k := range kv {
 			c.addKey(stateKey{Kind: "storage", Addr: a, Slot: k})
@@ -306,6 +311,9 @@ type world struct {
 	// across a block timestamp in between (never observed on an idle machine; seen once under heavy load)
 	minAgeDur  time.Duration
 	procSample uint64
+	migCut     uint64 // the cut-off the harness' last migMinAgeFloor scan used
+	procCutoff uint64 // the cut-off the harness read right before the process (and its seedFloor) started
+	tsSent     int    // number of block timestamps the model has been told
 	noState    bool            // long bare chains: no historical state observations (covered by the other scenarios)
 	extra      map[uint64]bool // blocks always inside the observation window
 	lastLow    uint64          // lowest durable floor seen at the previous observation (observation window)
@@ -338,10 +346,15 @@ func (w *world) replay() any {
 // ask sends one state-changing line to the model and remembers it (crash forks replay the prefix).
 func (w *world) ask(line string) string {
 	w.lines = append(w.lines, line)
+	if w.broken {
+		return "world-stopped"
+	}
 	out, err := w.drv.Ask(line)
+	if err == nil && out == "bad-op" {
+		err = fmt.Errorf("the driver does not understand the line")
+	}
 	if err != nil {
-		w.res.Note("driver: %v", err)
-		w.broken = true
+		w.harnessFailed("model driver: %v (line %q)", err, line)
 		return "driver-error"
 	}
 	return out
@@ -349,6 +362,13 @@ func (w *world) ask(line string) string {
 
 func (w *world) mismatch(sig string, input any, model, impl string) {
 	w.res.Mismatch(lib.Mismatch{Sig: sig, Input: map[string]any{"at": input, "replay": w.replay()}, Model: model, Impl: impl})
+}
+
+// harnessFailed: the machinery (model driver, shadow node, memory database) let the harness down. Never green
+// (CONVENTIONS §8); the world stops, nothing it would have produced is trusted.
+func (w *world) harnessFailed(format string, a ...any) {
+	w.res.Fatalf("%s: "+format, append([]any{w.name}, a...)...)
+	w.broken = true
 }
 
 func (w *world) violate(sig, what string) {
@@ -371,8 +391,7 @@ func newWorld(res *lib.Result, ch *chain, drv, fdrv *lib.Driver, fixed bool, mig
 	w.lines = nil
 	out := w.ask(w.cfgLine())
 	if out != "ok" {
-		w.res.Note("model cfg: %s", out)
-		w.broken = true
+		w.harnessFailed("model driver rejects the configuration line: %s", out)
 	}
 	// a brand-new process on an empty database with a seeded floor
 	w.res.Compared(1)
@@ -383,8 +402,53 @@ func newWorld(res *lib.Result, ch *chain, drv, fdrv *lib.Driver, fixed bool, mig
 }
 
 func (w *world) cfgLine() string {
-	return fmt.Sprintf("cfg %d %d %s %s %s %s %s", w.pcfg.Retained, w.pcfg.L2PerPrune, b01(w.cutoff > 0), b01(w.legacy()),
-		b01(w.fixed), b01(w.mig.SkipsMissing), b01(w.mig.ZeroNoop))
+	return fmt.Sprintf("cfg %d %d %s %s %s %s %s %s", w.pcfg.Retained, w.pcfg.L2PerPrune, b01(w.cutoff > 0), b01(w.legacy()),
+		b01(w.fixed), b01(w.mig.SkipsMissing), b01(w.mig.ZeroNoop), b01(l2Clamps.Load()))
+}
+
+// l2Clamps: the code under test ignores a new-head event for a block above the current head (detected, see
+// probeStaleEvent; proposed-fixes/C16-stale-new-head-event.diff).
+var l2Clamps atomic.Bool
+
+// clock tells the model the block timestamps of the chain (when it has grown) and the pruner's cut-off
+// (now - minAge) at this moment. The model derives everything else itself: the seeded / ticked sample, the
+// deep-catch-up decision of onNewBlock, the migration's min-age floor.
+func (w *world) clock(cut uint64) {
+	if w.cutoff == 0 {
+		return
+	}
+	if n := len(w.ch.g.Bundles); n != w.tsSent {
+		var sb strings.Builder
+		sb.WriteString("ts")
+		for _, b := range w.ch.g.Bundles {
+			fmt.Fprintf(&sb, " %d", b.Block.Timestamp)
+		}
+		if o := w.ask(sb.String()); o != "ok" && !w.broken {
+			w.harnessFailed("model driver rejects the timestamps: %s", o)
+		}
+		w.tsSent = n
+	}
+	if o := w.ask(fmt.Sprintf("clock %d", cut)); o != "ok" && !w.broken {
+		w.harnessFailed("model driver rejects clock %d: %s", cut, o)
+	}
+}
+
+// sampleTie: after a process start the model's seeded sample (binary search of the model over the model's
+// headers) must be what the harness' own linear scan over the real database finds.
+func (w *world) sampleTie(at string) {
+	if w.cutoff == 0 || w.broken {
+		return
+	}
+	info, err := w.drv.Ask("info")
+	f := strings.Fields(info)
+	if err != nil || len(f) != 7 {
+		w.harnessFailed("model driver: info: %v %q", err, info)
+		return
+	}
+	w.res.Compared(1)
+	if want := fmt.Sprint(w.sampleNow()); f[4] != want {
+		w.mismatch("min-age-sample", map[string]any{"at": at, "cutoff": w.procCutoff}, f[4], want)
+	}
 }
 
 // openNode is a process start: new Blockchain on the database with a RetentionFloor seeded from it
@@ -411,13 +475,16 @@ func (w *world) startProc() {
 		// min-age such that now-minAge falls on the scenario's cutoff; the chain's timestamps are years old
 		pc.MinAge = time.Since(time.Unix(int64(w.cutoff), 0))
 		w.minAgeDur = pc.MinAge
-		s0 = w.sampleAt(w.cutoffNow())
+		clockCases.Add(1)
+		w.procCutoff = w.cutoffNow()
+		s0 = w.sampleAt(w.procCutoff)
 	}
 	p, err := startPruner(w.nodeDB, w.floor, pc)
 	if w.cutoff > 0 {
 		// Run has seeded its sample somewhere between the two readings of the clock
 		if s1 := w.sampleAt(w.cutoffNow()); s1 != s0 {
 			w.broken = true
+			clockSkipped.Add(1)
 			w.res.Hit("skipped:clock-crossed-a-block-timestamp")
 		}
 		w.procSample = s0
@@ -511,13 +578,16 @@ func (w *world) bumpSpecFloor() {
 
 // store stores block height+1 of the chain on the node (the chain must already contain it).
 func (w *world) store() bool {
+	if w.broken || w.node == nil {
+		return false
+	}
 	n := w.height + 1
 	b := w.ch.g.Bundles[n]
 	w.rec("store", uint64(n), "")
 	var err error
 	perr, panicked, _ := lib.Try(func() error { err = lib.StoreOn(w.node, b); return nil })
 	if serr := lib.StoreOn(w.shadow, b); serr != nil {
-		w.res.Note("shadow store %d: %v", n, serr)
+		w.harnessFailed("shadow node: store %d: %v", n, serr)
 	}
 	impl := "ok"
 	if panicked {
@@ -546,11 +616,14 @@ func (w *world) store() bool {
 
 // revert reverts the node's head. The caller keeps the head at or above the floor.
 func (w *world) revert() bool {
+	if w.broken || w.node == nil {
+		return false
+	}
 	w.rec("revert", uint64(w.height), "")
 	var err error
 	perr, panicked, _ := lib.Try(func() error { err = w.node.RevertHead(); return nil })
 	if serr := w.shadow.RevertHead(); serr != nil {
-		w.res.Note("shadow revert %d: %v", w.height, serr)
+		w.harnessFailed("shadow node: revert %d: %v", w.height, serr)
 	}
 	impl := "ok"
 	if panicked {
@@ -577,9 +650,12 @@ func (w *world) revert() bool {
 }
 
 func (w *world) writeL1(n uint64) {
+	if w.broken || w.node == nil {
+		return
+	}
 	w.rec("writeL1", n, "")
 	if err := core.WriteL1Head(w.nodeDB, &core.L1Head{BlockNumber: n, BlockHash: lib.F(n), StateRoot: lib.F(n)}); err != nil {
-		w.res.Note("WriteL1Head: %v", err)
+		w.harnessFailed("WriteL1Head on the memory database: %v", err)
 	}
 	if o := w.ask(fmt.Sprintf("writel1 %d", n)); o != "ok" {
 		w.mismatch("writel1", n, o, "ok")
@@ -592,12 +668,16 @@ func (w *world) writeL1(n uint64) {
 // restart: the process ends (after a cancelled context, a kill, or an orderly stop between prunes)
 // and a new one starts on the same database.
 func (w *world) restart(why string) {
+	if w.broken || w.node == nil {
+		return
+	}
 	w.rec("restart", 0, why)
 	if w.proc != nil {
 		w.proc.stop()
 		w.proc = nil
 	}
 	w.openNode(true)
+	w.clock(w.procCutoff)
 	if o := w.ask("crash 1"); o != "ok" {
 		w.mismatch("restart", why, o, "ok")
 	}
@@ -605,9 +685,7 @@ func (w *world) restart(why string) {
 		// a new process on a database that an interrupted prune left behind
 		w.situation = "after-crash-mid-prune"
 	}
-	if w.cutoff > 0 {
-		w.ask(fmt.Sprintf("sample %d", w.sampleNow()))
-	}
+	w.sampleTie("restart:" + why)
 	w.quiescent = true
 	w.res.Hit("op:restart:" + why)
 }
@@ -648,8 +726,10 @@ func (w *world) event(kind string, n, ts uint64, plan prunePlan) eventResult {
 	if kind == "l1" {
 		line = fmt.Sprintf("evl1 %d", n)
 	} else {
-		within0 = w.cutoff > 0 && ts >= w.cutoffNow()
-		line = fmt.Sprintf("evl2 %d %s", n, b01(within0))
+		c0 := w.cutoffNow()
+		within0 = w.cutoff > 0 && ts >= c0
+		w.clock(c0)
+		line = fmt.Sprintf("evl2 %d", n)
 	}
 	w.hitEventBranch(kind, n, within0)
 	mStart := w.ask(line)
@@ -717,6 +797,7 @@ func (w *world) event(kind string, n, ts uint64, plan prunePlan) eventResult {
 	if kind == "l2" && w.cutoff > 0 && within0 != (ts >= w.cutoffNow()) {
 		// the clock crossed this block's timestamp while the event was in flight: the prediction is void
 		w.broken = true
+		clockSkipped.Add(1)
 		w.res.Hit("skipped:clock-crossed-a-block-timestamp")
 		return res
 	}
@@ -839,18 +920,18 @@ func (w *world) fork(kind string, n, ts uint64, seq int) {
 	// bring the second model instance to the same point
 	outs, err := f.drv.AskAll(w.lines)
 	if err != nil || len(outs) != len(w.lines) {
-		w.res.Note("fork driver: %v", err)
+		w.harnessFailed("fork: second model driver: %v (%d of %d answers)", err, len(outs), len(w.lines))
 		return
 	}
 	f.lines = append([]string{}, w.lines...)
+	f.tsSent = w.tsSent
 	f.openNode(true)
 	defer f.close()
+	f.clock(f.procCutoff)
 	if o := f.ask("crash 1"); o != "ok" {
 		f.mismatch("restart", "fork", o, "ok")
 	}
-	if f.cutoff > 0 {
-		f.ask(fmt.Sprintf("sample %d", f.sampleNow()))
-	}
+	f.sampleTie("fork")
 	w.res.Hit("interrupt:crash-image")
 	f.observe()
 	if f.broken {
@@ -954,6 +1035,10 @@ func (w *world) observe() {
 		}
 		class, mark, det = stateObs(byHash, w.node, w.ch.twinStateAt(fmt.Sprintf("hash/%d/%v", n, c.OnChain), byHash), w.ch.keys)
 		items = append(items, obsItem{model: "stateAtHash", real: "StateAtBlockHash", n: nn, class: class, det: det, mark: mark})
+		if n <= w.height {
+			w.lastUpdObs("num", nn, byNum, w.ch.twinLU(fmt.Sprintf("num/%d", n), byNum))
+			w.lastUpdObs("hash", nn, byHash, w.ch.twinLU(fmt.Sprintf("hash/%d", n), byHash))
+		}
 	}
 	// head state: the pruner never touches it. Compared with the shadow: a never-pruned node that went
 	// through the same Store / RevertHead history (so a defect of RevertHead itself is not blamed on pruning).
@@ -975,6 +1060,7 @@ func (w *world) observe() {
 			_ = scl()
 		}
 		headClass, _, headDet = stateObs(headOf, w.node, sh, w.ch.keys)
+		w.lastUpdObs("head", uint64(w.height), headOf, readLU(headOf, w.shadow))
 	}
 
 	// --- model correspondence
@@ -985,8 +1071,7 @@ func (w *world) observe() {
 	lines = append(lines, "head")
 	outs, err := w.drv.AskAll(lines)
 	if err != nil || len(outs) != len(lines) {
-		w.res.Note("driver: %v", err)
-		w.broken = true
+		w.harnessFailed("model driver: %v (%d of %d answers)", err, len(outs), len(lines))
 		return
 	}
 	w.res.Compared(len(lines))
@@ -1112,10 +1197,12 @@ func (w *world) oracle(items []obsItem, headClass, headDet string) {
 func (w *world) floorsTie() {
 	info, err := w.drv.Ask("info")
 	if err != nil {
+		w.harnessFailed("model driver: %v", err)
 		return
 	}
 	f := strings.Fields(info) // height l1 floorState pending sampled job oldest
 	if len(f) != 7 {
+		w.harnessFailed("model driver: malformed answer to info: %q", info)
 		return
 	}
 	w.res.Compared(2)
@@ -1172,8 +1259,7 @@ func (w *world) bloomWindows() {
 		}
 		m, derr := w.drv.Ask(fmt.Sprintf("agg %d", win))
 		if derr != nil {
-			w.res.Note("driver: %v", derr)
-			w.broken = true
+			w.harnessFailed("model driver: %v", derr)
 			return
 		}
 		w.res.Compared(1)
